@@ -356,6 +356,8 @@ APPLY_FUNCS = {
 	"nones": lambda vals: sum(1 for v in vals if v is None),
 	"join": lambda vals: "|".join(repr(v) for v in vals),
 	"drain": lambda vals: (tuple(vals), vals.clear())[0],   # consumes its input list: a later callback must still get fresh values
+	"sort-in-place": lambda vals: (vals.sort(key=repr), tuple(vals))[1],      # reorders its input list in place
+	"builtin-sum": sum, "builtin-max": max, "builtin-min": min, "builtin-len": len, "builtin-list": list,      # the bare built-ins, passed as they are (no wrapper)
 }
 
 
@@ -406,10 +408,14 @@ def gen_agg_spec(rng, max_rows=8, op=None):
 			if k0[i] == k0[0] and (k0[i] is None) == (k0[0] is None):
 				cols[names.index(val_names[0])][i] = None
 	aggs = {}
+	stored_keys = [r["name"] for r in key_refs if r["mode"] != "external"]
 	for f in AGG_FUNCS:
 		if rng.random() < 0.45:
 			picks = [rng.choice(val_names) for _ in range(rng.choice([1, 1, 2, 3]))]
-			picks = [p for p in picks if f in EXOTIC_ALLOWED.get(val_kind[p], AGG_FUNCS)]
+			if f == "count" and stored_keys and rng.random() < 0.4:
+				picks.append(rng.choice(stored_keys))      # counting a partition key column counts ITS non-None values
+				val_kind[picks[-1]] = "key"
+			picks = [p for p in picks if f in EXOTIC_ALLOWED.get(val_kind.get(p), AGG_FUNCS)]
 			if picks:
 				aggs[f] = [{"mode": rng.choice(["name", "vector"]), "name": p} for p in picks]
 	apply = []
@@ -421,6 +427,13 @@ def gen_agg_spec(rng, max_rows=8, op=None):
 				nm += "x"
 			apply.append({"out": nm, "col": {"mode": rng.choice(["name", "vector"]), "name": target}, "fn": rng.choice(list(APPLY_FUNCS))})
 	scalar_over = len(key_refs) == 1 and rng.random() < 0.5
+	if rng.random() < 0.04 and n:
+		key_refs = []      # no partition key at all: one global group
+		aggs = {f: [r for r in refs if r["name"] in val_names] for f, refs in aggs.items()}
+		aggs = {f: refs for f, refs in aggs.items() if refs}
+		apply = [a for a in apply if a["col"]["name"] in val_names]
+		if not aggs and not apply:
+			aggs = {"count": [{"mode": "name", "name": val_names[0]}]}
 	return {"op": op or rng.choice(["aggregate", "window"]), "table": {"names": names, "cols": cols}, "n": n,
 		"over": key_refs, "scalar_over": scalar_over, "aggs": aggs, "apply": apply}
 
@@ -450,9 +463,9 @@ def ref_name(ref):
 	return ref.get("name")
 
 
-def do_agg(spec, op=None, spies=None):
-	"""returns (Out, table). spies: dict out-name -> callable wrapper factory"""
-	t = mk_table(spec["table"])
+def do_agg(spec, op=None, spies=None, table=None):
+	"""returns (Out, table). spies: dict out-name -> callable wrapper factory; table: an existing Table object to run on instead of building one"""
+	t = table if table is not None else mk_table(spec["table"])
 	over = [resolve_ref(t, r) for r in spec["over"]]
 	if spec.get("scalar_over") and len(over) == 1:
 		over = over[0]
@@ -464,7 +477,7 @@ def do_agg(spec, op=None, spies=None):
 		ap = {}
 		for a in spec["apply"]:
 			fn = APPLY_FUNCS[a["fn"]]
-			if spies is not None:
+			if spies is not None and not a["fn"].startswith("builtin-"):
 				fn = spies(a["out"], fn)
 			ap[a["out"]] = (resolve_ref(t, a["col"]), fn)
 		kw["apply"] = ap
